@@ -8,7 +8,9 @@ from .core import AnalysisError
 from . import pyxfront
 
 
-MODULE_OF = {}
+import weakref
+
+MODULE_OF = weakref.WeakValueDictionary()      # id(function node) -> module; entries vanish with the module (scratch copies are parsed by the thousand in the self-test)
 
 
 class Mod:
